@@ -1,150 +1,191 @@
-(* C11 — soundness of the polynomial rational reconstruction (control structure of givpoly1ratrecon.inl),
-   for EVERY commutative ring T with a degree function such that  deg 0 = -1  and
-   deg (c*x) < deg x -> c*x = 0  (true in K[X]: deg (c x) = deg c + deg x for c, x <> 0), and for EVERY
-   quotient function `div` (soundness does not depend on what divmodin computes as quotient, only on
-   R = A - Q*B).  The polynomials over Z/p of PolyModel.v are one such instance; that their list operations
-   satisfy the ring laws is not proved here (correspondence-tested, property C08's subject). *)
-From Coq Require Import ZArith Lia Bool Ring.
+(* C11 — soundness of the polynomial rational reconstruction (control structure of givpoly1ratrecon.inl).
+
+   Section SoundS: for EVERY carrier T with an equivalence `req`, commutative-ring operations up to req, and EVERY
+   record `Ops` of Poly1Dom operations (PolyModel.pops) such that
+        deg respects req,  deg 0 = -1,  deg (c*x) < deg x -> c*x == 0     (true in K[X])
+        assign x == x,  divmodin returns (Q, R) with R == A - Q*B (whatever Q is),  maxpyin r a b == r - a*b.
+   PolyLists.v discharges all of these for the coefficient-vector polynomials of coq/C08 over any field.
+   Below the section the same statements are given for Leibniz equality over an abstract ring (the instance
+   `GOps`), which is how they are quoted in Properties.v. *)
+From Coq Require Import ZArith Lia Bool Ring Setoid Morphisms.
 From C11 Require Import PolyModel.
 Local Open Scope Z_scope.
 
-Section Sound.
+Section SoundS.
   Variable T : Type.
+  Variable req : T -> T -> Prop.
+  Hypothesis req_equiv : Equivalence req.
   Variables (zero one : T) (add mul sub : T -> T -> T) (opp : T -> T).
-  Hypothesis Rth : ring_theory zero one add mul sub opp (@eq T).
-  Add Ring Tring : Rth.
-  Variable deg : T -> Z.
-  Variable div : T -> T -> T.
-  Hypothesis deg_zero : deg zero = -1.
-  Hypothesis deg_mul_small : forall c x, deg (mul c x) < deg x -> mul c x = zero.
+  Hypothesis Rth : ring_theory zero one add mul sub opp req.
+  Hypothesis Rext : ring_eq_ext add mul opp req.
+  Add Ring TringS : Rth (setoid req_equiv Rext).
+  Local Existing Instance req_equiv.
+  Local Instance add_P : Proper (req ==> req ==> req) add := Radd_ext Rext.
+  Local Instance mul_P : Proper (req ==> req ==> req) mul := Rmul_ext Rext.
+  Local Instance opp_P : Proper (req ==> req) opp := Ropp_ext Rext.
+  Local Instance sub_P : Proper (req ==> req ==> req) sub.
+  Proof.
+    intros a a' Ha b b' Hb. rewrite (Rsub_def Rth a b), (Rsub_def Rth a' b'), Ha, Hb. reflexivity.
+  Qed.
+  Local Infix "==" := req (at level 70, no associativity).
 
-  (* ratreconcheck: an arbitrary gcd-degree function and test "leadcoef is one"; dividing by the leading
-     coefficient of D is multiplication by some element unit_of D, invertible when D <> 0, that keeps degrees *)
-  Variable gcddeg : T -> T -> Z.
-  Variable leadone : T -> bool.
-  Variable unit_of : T -> T.
-  Definition GOps : pops T :=
-    mk_pops T zero one deg div (fun r a b => sub r (mul a b)) gcddeg leadone (fun D X => mul (unit_of D) X).
+  Variable Ops : pops T.
+  Local Notation deg := (pdeg Ops).
+  Hypothesis deg_proper : forall x y, x == y -> deg x = deg y.
+  Hypothesis deg_zero : deg zero = -1.
+  Hypothesis deg_mul_small : forall c x, deg (mul c x) < deg x -> mul c x == zero.
+  Hypothesis zero_ok : pzero Ops == zero.
+  Hypothesis one_ok : pone Ops == one.
+  Hypothesis assign_ok : forall x, passign Ops x == x.
+  Hypothesis divmod_ok : forall a b, snd (pdivmod Ops a b) == sub a (mul (fst (pdivmod Ops a b)) b).
+  Hypothesis maxpy_ok : forall r a b, pmaxpy Ops r a b == sub r (mul a b).
 
   (* a == b (mod M) *)
-  Definition pcong (M a b : T) : Prop := exists c, sub a b = mul c M.
+  Definition pcong (M a b : T) : Prop := exists c, sub a b == mul c M.
 
   (* invariant of the loop: both pairs are congruent, and their determinant is M *)
   Definition PInv (P M N U D0 D : T) : Prop :=
-    pcong M N (mul D0 P) /\ pcong M U (mul D P) /\ sub (mul N D) (mul U D0) = M.
+    pcong M N (mul D0 P) /\ pcong M U (mul D P) /\ sub (mul N D) (mul U D0) == M.
+
+  Lemma pcong_proper M a a' b b' : a == a' -> b == b' -> pcong M a b -> pcong M a' b'.
+  Proof. intros Ha Hb [c H]. exists c. rewrite <- Ha, <- Hb. exact H. Qed.
 
   Lemma pcong_step P M N U D0 D Q :
     pcong M N (mul D0 P) -> pcong M U (mul D P) ->
     pcong M (sub N (mul Q U)) (mul (sub D0 (mul Q D)) P).
   Proof.
     intros [c0 H0] [c1 H1]. exists (sub c0 (mul Q c1)).
-    replace (sub (sub N (mul Q U)) (mul (sub D0 (mul Q D)) P))
-      with (sub (sub N (mul D0 P)) (mul Q (sub U (mul D P)))) by ring.
+    transitivity (sub (sub N (mul D0 P)) (mul Q (sub U (mul D P)))); [ring|].
     rewrite H0, H1. ring.
   Qed.
 
-  Lemma M_nonzero M dk : -1 <= dk < deg M -> M <> zero.
-  Proof. intros H E. rewrite E, deg_zero in H. lia. Qed.
+  Lemma M_nonzero M dk : -1 <= dk < deg M -> ~ M == zero.
+  Proof. intros H E. rewrite (deg_proper _ _ E), deg_zero in H. lia. Qed.
 
   (* a congruent candidate (X, Y) of small degree that cannot vanish entirely (its determinant with the
      other pair is M) has Y <> 0 *)
   Lemma den_nonzero P M dk X Y :
     -1 <= dk < deg M -> pcong M X (mul Y P) -> deg X <= dk ->
-    (X = zero -> Y = zero -> M = zero) -> Y <> zero.
+    (X == zero -> Y == zero -> M == zero) -> ~ Y == zero.
   Proof.
-    intros Hdk [c Hc] Hd Hdet E. subst Y.
-    assert (HX : X = mul c M) by (rewrite <- Hc; ring).
-    assert (Hz : mul c M = zero) by (apply deg_mul_small; rewrite <- HX; lia).
-    rewrite Hz in HX.
-    apply (M_nonzero M dk Hdk). apply Hdet; [exact HX|reflexivity].
+    intros Hdk [c Hc] Hd Hdet E.
+    assert (HX : X == mul c M).
+    { rewrite <- Hc, E. ring. }
+    assert (Hz : mul c M == zero).
+    { apply deg_mul_small. rewrite <- (deg_proper _ _ HX). lia. }
+    apply (M_nonzero M dk Hdk). apply Hdet; [rewrite HX; exact Hz|exact E].
   Qed.
 
   Lemma ploop_sound P M dk : -1 <= dk < deg M -> forall fuel N U D0 D Nr Dr,
-    PInv P M N U D0 D -> ploop GOps fuel N U D0 D dk = Some (true, Nr, Dr) ->
-    pcong M Nr (mul Dr P) /\ deg Nr <= dk /\ Dr <> zero.
+    PInv P M N U D0 D -> ploop Ops fuel N U D0 D dk = Some (true, Nr, Dr) ->
+    pcong M Nr (mul Dr P) /\ deg Nr <= dk /\ ~ Dr == zero.
   Proof.
     intros Hdk fuel; induction fuel as [|n IH]; intros N U D0 D Nr Dr (C0 & C1 & Det); cbn [ploop]; [discriminate|].
-    cbn [pdiv pmaxpy pdeg GOps].
-    set (Q := div N U). set (N1 := sub N (mul Q U)). set (D01 := sub D0 (mul Q D)).
-    assert (C0' : pcong M N1 (mul D01 P)) by (apply pcong_step; assumption).
-    assert (Det1 : sub (mul N1 D) (mul U D01) = M) by (rewrite <- Det; unfold N1, D01; ring).
+    pose proof (divmod_ok N U) as HN1.
+    destruct (pdivmod Ops N U) as [Q N1]. cbn [fst snd] in HN1.
+    pose proof (maxpy_ok D0 Q D) as HD01. set (D01 := pmaxpy Ops D0 Q D) in *.
+    assert (C0' : pcong M N1 (mul D01 P)).
+    { eapply pcong_proper; [symmetry; exact HN1| |apply (pcong_step P M N U D0 D Q); assumption].
+      rewrite HD01. reflexivity. }
+    assert (Det1 : sub (mul N1 D) (mul U D01) == M).
+    { rewrite <- Det, HN1, HD01. ring. }
     destruct ((deg N1 <=? dk) || (deg N1 <? 0)) eqn:E1.
     - intros R; inversion R as [[Hf HN HD]]; subst Nr Dr. apply Z.leb_le in Hf.
-      split; [exact C0'|]. split; [exact Hf|].
-      apply (den_nonzero P M dk N1 D01 Hdk C0' Hf).
-      intros EX EY. rewrite <- Det1, EX, EY. ring.
-    - set (Q2 := div U N1). set (U1 := sub U (mul Q2 N1)). set (D1 := sub D (mul Q2 D01)).
-      assert (C1' : pcong M U1 (mul D1 P)) by (apply pcong_step; assumption).
-      assert (Det2 : sub (mul N1 D1) (mul U1 D01) = M) by (rewrite <- Det1; unfold U1, D1; ring).
+      assert (C0'' : pcong M N1 (mul (passign Ops D01) P)).
+      { eapply pcong_proper; [reflexivity| |exact C0']. rewrite (assign_ok D01). reflexivity. }
+      split; [exact C0''|]. split; [exact Hf|].
+      apply (den_nonzero P M dk N1 (passign Ops D01) Hdk C0'' Hf).
+      intros EX EY. rewrite (assign_ok D01) in EY. rewrite <- Det1, EX, EY. ring.
+    - pose proof (divmod_ok U N1) as HU1.
+      destruct (pdivmod Ops U N1) as [Q2 U1]. cbn [fst snd] in HU1.
+      pose proof (maxpy_ok D Q2 D01) as HD1. set (D1 := pmaxpy Ops D Q2 D01) in *.
+      assert (C1' : pcong M U1 (mul D1 P)).
+      { eapply pcong_proper; [symmetry; exact HU1| |apply (pcong_step P M U N1 D D01 Q2); assumption].
+        rewrite HD1. reflexivity. }
+      assert (Det2 : sub (mul N1 D1) (mul U1 D01) == M).
+      { rewrite <- Det1, HU1, HD1. ring. }
       destruct (Z.leb_spec (deg U1) dk) as [L|L].
       + intros R; inversion R; subst Nr Dr.
-        split; [exact C1'|]. split; [exact L|].
-        apply (den_nonzero P M dk U1 D1 Hdk C1' L).
-        intros EX EY. rewrite <- Det2, EX, EY. ring.
+        assert (C1'' : pcong M (passign Ops U1) (mul D1 P)).
+        { eapply pcong_proper; [symmetry; apply assign_ok|reflexivity|exact C1']. }
+        assert (L' : deg (passign Ops U1) <= dk) by (rewrite (deg_proper _ _ (assign_ok U1)); exact L).
+        split; [exact C1''|]. split; [exact L'|].
+        apply (den_nonzero P M dk (passign Ops U1) D1 Hdk C1'' L').
+        intros EX EY. rewrite (assign_ok U1) in EX. rewrite <- Det2, EX, EY. ring.
       + destruct (deg U1 >=? 0); [|discriminate].
         apply IH. repeat split; assumption.
   Qed.
 
   Definition Poly_ratrecon_sound_stmt : Prop := forall P M dk N D, 0 <= dk < deg M ->
-    pratrecon GOps P M dk = Some (true, N, D) ->
-    pcong M N (mul D P) /\ deg N <= dk /\ D <> zero.
+    pratrecon Ops P M dk = Some (true, N, D) ->
+    pcong M N (mul D P) /\ deg N <= dk /\ ~ D == zero.
 
   Lemma poly_ratrecon_sound : Poly_ratrecon_sound_stmt.
   Proof.
-    intros P M dk N D Hdk. unfold pratrecon, pratrecon_fuel. cbn [pdeg pone pzero GOps].
+    intros P M dk N D Hdk. unfold pratrecon, pratrecon_fuel.
     assert (Hc : clampdeg dk = dk) by (unfold clampdeg; destruct (Z.ltb_spec dk 0); lia).
     rewrite Hc.
-    assert (HM : M <> zero) by (apply (M_nonzero M dk); lia).
+    assert (HM : ~ M == zero) by (apply (M_nonzero M dk); lia).
+    assert (A1 : passign Ops (pone Ops) == one) by (rewrite assign_ok; exact one_ok).
+    assert (A0 : passign Ops (pzero Ops) == zero) by (rewrite assign_ok; exact zero_ok).
     destruct ((deg P <? dk) || (deg M =? 0)) eqn:E1.
     - intros R; inversion R; subst N D.
       apply orb_true_iff in E1. destruct E1 as [E1|E1]; [apply Z.ltb_lt in E1|apply Z.eqb_eq in E1; lia].
-      split; [exists zero; ring|]. split; [lia|].
-      intros E. apply HM. replace M with (mul one M) by ring. rewrite E. ring.
+      split; [exists zero; rewrite A1, (assign_ok P); ring|]. split; [rewrite (deg_proper _ _ (assign_ok P)); lia|].
+      intros E. apply HM. rewrite A1 in E. transitivity (mul one M); [ring|]. rewrite E. ring.
     - destruct ((deg M <? 0) || (deg P =? 0)); [discriminate|].
-      apply ploop_sound; [lia|].
-      repeat split.
-      + exists one; ring.
-      + exists zero; ring.
-      + ring.
+      assert (HdM : deg (passign Ops M) = deg M) by (apply deg_proper, assign_ok).
+      intros HL.
+      assert (Hdk' : -1 <= dk < deg (passign Ops M)) by lia.
+      assert (HI : PInv (passign Ops P) (passign Ops M) (passign Ops M) (passign Ops P)
+                        (passign Ops (pzero Ops)) (passign Ops (pone Ops))).
+      { repeat split.
+        * exists one. rewrite A0. ring.
+        * exists zero. rewrite A1. ring.
+        * rewrite A0, A1. ring. }
+      destruct (ploop_sound (passign Ops P) (passign Ops M) dk Hdk' _ _ _ _ _ N D HI HL) as (C & L & NZ).
+      + split; [|split; assumption].
+        destruct C as [c C]. exists c. rewrite <- (assign_ok M) at 1. rewrite <- C, (assign_ok P). reflexivity.
   Qed.
 
-  (* ------------------------------------------------------------ ratreconcheck and the 6-argument form *)
-  Hypothesis unit_inv : forall D, D <> zero -> exists v, mul v (unit_of D) = one.
-  Hypothesis unit_deg : forall D X, D <> zero -> deg (mul (unit_of D) X) = deg X.
+  (* ------------------------------------------------------------ ratreconcheck and the 6-argument form:
+     dividing by the leading coefficient of D is multiplication by some element unit_of D, invertible when
+     D <> 0, that keeps degrees *)
+  Variable unit_of : T -> T.
+  Hypothesis divlead_ok : forall D X, pdivlead Ops D X == mul (unit_of D) X.
+  Hypothesis unit_inv : forall D, ~ D == zero -> exists v, mul v (unit_of D) == one.
+  Hypothesis unit_deg : forall D X, ~ D == zero -> deg (mul (unit_of D) X) = deg X.
 
   Definition Poly_ratreconcheck_sound_stmt : Prop := forall P M dk N D, 0 <= dk < deg M ->
-    pratreconcheck_g GOps P M dk = Some (true, N, D) ->
-    pcong M N (mul D P) /\ deg N <= dk /\ D <> zero /\
-    exists N0 D0, pratrecon GOps P M dk = Some (true, N0, D0) /\ gcddeg N0 D0 <= 0 /\
-                  ((N = N0 /\ D = D0) \/ (N = mul (unit_of D0) N0 /\ D = mul (unit_of D0) D0)).
+    pratreconcheck_g Ops P M dk = Some (true, N, D) ->
+    pcong M N (mul D P) /\ deg N <= dk /\ ~ D == zero /\
+    exists N0 D0, pratrecon Ops P M dk = Some (true, N0, D0) /\ pgcddeg Ops N0 D0 <= 0 /\
+                  ((N = N0 /\ D = D0) \/ (N = pdivlead Ops D0 N0 /\ D = pdivlead Ops D0 D0)).
   Lemma poly_ratreconcheck_sound : Poly_ratreconcheck_sound_stmt.
   Proof.
     intros P M dk N D Hdk. unfold pratreconcheck_g.
-    destruct (pratrecon GOps P M dk) as [[[pass N0] D0]|] eqn:E; [|discriminate].
-    cbn [pgcddeg pleadone pdivlead GOps].
-    destruct (Z.gtb_spec (gcddeg N0 D0) 0) as [G|G]; [discriminate|].
-    assert (S0 : pass = true -> pcong M N0 (mul D0 P) /\ deg N0 <= dk /\ D0 <> zero).
+    destruct (pratrecon Ops P M dk) as [[[pass N0] D0]|] eqn:E; [|discriminate].
+    destruct (Z.gtb_spec (pgcddeg Ops N0 D0) 0) as [G|G]; [discriminate|].
+    assert (S0 : pass = true -> pcong M N0 (mul D0 P) /\ deg N0 <= dk /\ ~ D0 == zero).
     { intros ->. exact (poly_ratrecon_sound P M dk N0 D0 Hdk E). }
-    destruct (leadone D0).
+    destruct (pleadone Ops D0).
     - intros R; inversion R; subst. destruct (S0 eq_refl) as (C & L & NZ).
       repeat split; auto. exists N, D. repeat split; auto.
     - intros R; inversion R; subst. destruct (S0 eq_refl) as ([c C] & L & NZ).
       split; [|split; [|split]].
-      + exists (mul (unit_of D0) c).
-        replace (sub (mul (unit_of D0) N0) (mul (mul (unit_of D0) D0) P))
-          with (mul (unit_of D0) (sub N0 (mul D0 P))) by ring.
+      + exists (mul (unit_of D0) c). rewrite !divlead_ok.
+        transitivity (mul (unit_of D0) (sub N0 (mul D0 P))); [ring|].
         rewrite C. ring.
-      + rewrite unit_deg by exact NZ. exact L.
-      + intros Z0. destruct (unit_inv D0 NZ) as [v Hv]. apply NZ.
-        assert (HD : D0 = mul v (mul (unit_of D0) D0)).
-        { transitivity (mul (mul v (unit_of D0)) D0); [rewrite Hv; ring|ring]. }
-        etransitivity; [exact HD|]. rewrite Z0. ring.
+      + rewrite (deg_proper _ _ (divlead_ok D0 N0)), unit_deg by exact NZ. exact L.
+      + intros Z0. rewrite divlead_ok in Z0. destruct (unit_inv D0 NZ) as [v Hv]. apply NZ.
+        transitivity (mul (mul v (unit_of D0)) D0); [rewrite Hv; ring|].
+        transitivity (mul v (mul (unit_of D0) D0)); [ring|]. rewrite Z0. ring.
       + exists N0, D0. repeat split; auto.
   Qed.
 
   Definition Poly_ratrecon6_sound_stmt : Prop := forall P M dk fr N D, 0 <= dk < deg M ->
-    pratrecon6_g GOps P M dk fr = Some (true, N, D) ->
-    pcong M N (mul D P) /\ deg N <= dk /\ D <> zero.
+    pratrecon6_g Ops P M dk fr = Some (true, N, D) ->
+    pcong M N (mul D P) /\ deg N <= dk /\ ~ D == zero.
   Lemma poly_ratrecon6_sound : Poly_ratrecon6_sound_stmt.
   Proof.
     intros P M dk fr N D Hdk. unfold pratrecon6_g. destruct fr.
@@ -153,43 +194,60 @@ Section Sound.
   Qed.
 
   (* ------------------------------------------------------------ termination (needs the division to be Euclidean) *)
-  Hypothesis deg_rem : forall a b, b <> zero -> deg (sub a (mul (div a b) b)) < deg b.
-  Hypothesis deg_nonneg : forall x, x <> zero -> 0 <= deg x.
+  Hypothesis deg_rem : forall a b, ~ b == zero -> deg (snd (pdivmod Ops a b)) < deg b.
+  Hypothesis deg_nonneg : forall x, ~ x == zero -> 0 <= deg x.
 
-  Lemma deg_pos_nonzero x : 0 <= deg x -> x <> zero.
-  Proof. intros H E. rewrite E, deg_zero in H. lia. Qed.
+  Lemma deg_pos_nonzero x : 0 <= deg x -> ~ x == zero.
+  Proof. intros H E. rewrite (deg_proper _ _ E), deg_zero in H. lia. Qed.
 
   Lemma ploop_total dk : -1 <= dk -> forall fuel N U D0 D,
-    U <> zero -> deg U < Z.of_nat fuel -> ploop GOps fuel N U D0 D dk <> None.
+    ~ U == zero -> deg U < Z.of_nat fuel -> ploop Ops fuel N U D0 D dk <> None.
   Proof.
     intros Hdk fuel; induction fuel as [|n IH]; intros N U D0 D HU Hf; cbn [ploop].
     - exfalso. pose proof (deg_nonneg U HU). cbn in Hf. lia.
-    - cbn [pdiv pmaxpy pdeg GOps].
-      set (N1 := sub N (mul (div N U) U)).
-      pose proof (deg_rem N U HU) as R1. fold N1 in R1.
+    - pose proof (deg_rem N U HU) as R1.
+      destruct (pdivmod Ops N U) as [Q N1]. cbn [snd] in R1.
       destruct ((deg N1 <=? dk) || (deg N1 <? 0)) eqn:E1; [discriminate|].
       apply orb_false_iff in E1. destruct E1 as [E1 E1']. apply Z.leb_gt in E1. apply Z.ltb_ge in E1'.
-      assert (HN1 : N1 <> zero) by (apply deg_pos_nonzero; lia).
-      set (U1 := sub U (mul (div U N1) N1)).
-      pose proof (deg_rem U N1 HN1) as R2. fold U1 in R2.
+      assert (HN1 : ~ N1 == zero) by (apply deg_pos_nonzero; lia).
+      pose proof (deg_rem U N1 HN1) as R2.
+      destruct (pdivmod Ops U N1) as [Q2 U1]. cbn [snd] in R2.
       destruct (Z.leb_spec (deg U1) dk) as [L|L]; [discriminate|].
       destruct (Z.geb_spec (deg U1) 0) as [G|G]; [|discriminate].
       apply IH; [apply deg_pos_nonzero; lia|]. lia.
   Qed.
 
   Definition Poly_ratrecon_total_stmt : Prop := forall P M dk, 0 <= dk -> -1 <= deg M ->
-    pratrecon GOps P M dk <> None.
+    pratrecon Ops P M dk <> None.
   Lemma poly_ratrecon_total : Poly_ratrecon_total_stmt.
   Proof.
-    intros P M dk Hdk HM. unfold pratrecon, pratrecon_fuel, pfuel. cbn [pdeg pone pzero GOps].
+    intros P M dk Hdk HM. unfold pratrecon, pratrecon_fuel, pfuel.
     assert (Hc : clampdeg dk = dk) by (unfold clampdeg; destruct (Z.ltb_spec dk 0); lia).
     rewrite Hc.
     destruct ((deg P <? dk) || (deg M =? 0)) eqn:E1; [discriminate|].
     destruct ((deg M <? 0) || (deg P =? 0)); [discriminate|].
     apply orb_false_iff in E1. destruct E1 as [E1 _]. apply Z.ltb_ge in E1.
+    pose proof (deg_proper _ _ (assign_ok P)) as HP.
     apply ploop_total; [lia|apply deg_pos_nonzero; lia|]. lia.
   Qed.
-End Sound.
+End SoundS.
+
+(* ------------------------------------------------------------------ Leibniz equality over an abstract ring *)
+Section Leibniz.
+  Variable T : Type.
+  Variables (zero one : T) (add mul sub : T -> T -> T) (opp : T -> T).
+  Variable deg : T -> Z.
+  Variable div : T -> T -> T.
+  Variable gcddeg : T -> T -> Z.
+  Variable leadone : T -> bool.
+  Variable unit_of : T -> T.
+  Definition GOps : pops T :=
+    mk_pops T zero one (fun x => x) deg (fun a b => (div a b, sub a (mul (div a b) b)))
+            (fun r a b => sub r (mul a b)) gcddeg leadone (fun D X => mul (unit_of D) X).
+End Leibniz.
+
+Lemma eq_ext_of {T} (add mul : T -> T -> T) (opp : T -> T) : ring_eq_ext add mul opp (@eq T).
+Proof. constructor; intros ? ? -> ; try intros ? ? ->; reflexivity. Qed.
 
 (* the statements with their hypotheses spelled out *)
 Definition Poly_ratrecon_sound : Prop :=
@@ -202,7 +260,13 @@ Definition Poly_ratrecon_sound : Prop :=
         pratrecon (GOps T zero one mul sub deg div gcddeg leadone unit_of) P M dk = Some (true, N, D) ->
         (exists c, sub N (mul D P) = mul c M) /\ deg N <= dk /\ D <> zero.
 Lemma poly_ratrecon_sound_full : Poly_ratrecon_sound.
-Proof. intros T zero one add mul sub opp Rth deg div g l u Hz Hs. exact (poly_ratrecon_sound T zero one add mul sub opp Rth deg div Hz Hs g l u). Qed.
+Proof.
+  intros T zero one add mul sub opp Rth deg div g l u Hz Hs.
+  apply (poly_ratrecon_sound T eq _ zero one add mul sub opp Rth (eq_ext_of add mul opp)
+           (GOps T zero one mul sub deg div g l u)); cbn [GOps pdeg pzero pone passign pdivmod pmaxpy fst snd];
+    try reflexivity; try assumption.
+  intros x y ->; reflexivity.
+Qed.
 
 (* ratreconcheck and ratrecon(N,D,P,M,dk,forcereduce): dividing by leadcoef(D) is multiplication by unit_of D *)
 Definition Poly_ratreconcheck_sound : Prop :=
@@ -224,8 +288,13 @@ Definition Poly_ratreconcheck_sound : Prop :=
 Lemma poly_ratreconcheck_sound_full : Poly_ratreconcheck_sound.
 Proof.
   intros T zero one add mul sub opp Rth deg div g l u Hz Hs Hu Hd Ops P M dk N D Hdk. split.
-  - exact (poly_ratreconcheck_sound T zero one add mul sub opp Rth deg div Hz Hs g l u Hu Hd P M dk N D Hdk).
-  - intros fr. exact (poly_ratrecon6_sound T zero one add mul sub opp Rth deg div Hz Hs g l u Hu Hd P M dk fr N D Hdk).
+  - apply (poly_ratreconcheck_sound T eq _ zero one add mul sub opp Rth (eq_ext_of add mul opp) Ops) with (unit_of := u);
+      cbn [Ops GOps pdeg pzero pone passign pdivmod pmaxpy pdivlead fst snd]; try reflexivity; try assumption.
+    intros x y ->; reflexivity.
+  - intros fr.
+    apply (poly_ratrecon6_sound T eq _ zero one add mul sub opp Rth (eq_ext_of add mul opp) Ops) with (unit_of := u);
+      cbn [Ops GOps pdeg pzero pone passign pdivmod pmaxpy pdivlead fst snd]; try reflexivity; try assumption.
+    intros x y ->; reflexivity.
 Qed.
 
 (* termination within the fuel deg P + deg M + 4 when `div` is a Euclidean quotient *)
@@ -239,7 +308,12 @@ Definition Poly_ratrecon_total : Prop :=
       forall (P M : T) (dk : Z), 0 <= dk -> -1 <= deg M ->
         pratrecon (GOps T zero one mul sub deg div gcddeg leadone unit_of) P M dk <> None.
 Lemma poly_ratrecon_total_full : Poly_ratrecon_total.
-Proof. intros T zero one add mul sub opp Rth deg div g l u Hz Hr Hn. eapply poly_ratrecon_total; eauto. Qed.
+Proof.
+  intros T zero one add mul sub opp Rth deg div g l u Hz Hr Hn.
+  refine (poly_ratrecon_total T eq zero (GOps T zero one mul sub deg div g l u) _ Hz _ _ _);
+    cbn [GOps pdeg pzero pone passign pdivmod pmaxpy fst snd]; try reflexivity; try assumption.
+  intros x y ->; reflexivity.
+Qed.
 
 (* the hypotheses are satisfiable: Z with deg x = (if x = 0 then -1 else 0) *)
 Example poly_hyps_example :
